@@ -361,4 +361,63 @@ theorem controlKeys_slot (cp : Bytes) (k : CommitKind) (u : RUnit) (p : Payload)
     · rw [e, commitIndexKey_slot cp _ hcp h3 h4, h1]
   · rw [hkey, markerKey_slot cp _ hcp h3 h4, h1]
 
+/-! ### standalone mode -/
+
+theorem keysLoop_standalone (idx : Nat) (keys : List Bytes) (s seen : Nat) :
+    keysLoop standaloneMode idx keys (s, true, seen) = .ok (s, true, seen + keys.length) := by
+  induction keys generalizing idx seen with
+  | nil => simp [keysLoop]
+  | cons k ks ih =>
+    rw [keysLoop]
+    simp only [standaloneMode, Bool.not_true, Bool.false_and, Bool.false_eq_true, ↓reduceIte,
+      Option.isNone_some]
+    have := ih (idx + 1) (seen + 1)
+    simp only [standaloneMode] at this
+    rw [this, List.length_cons]
+    have e : seen + 1 + ks.length = seen + (ks.length + 1) := by omega
+    rw [e]
+
+theorem cmdsLoop_standalone (r : Resolver) (cmds : List Cmd) (s seen : Nat) (h : ∀ c ∈ cmds, Routable r c) :
+    cmdsLoop standaloneMode r cmds (s, true, seen) = .ok (s, true, seen + (allKeys r cmds).length) := by
+  induction cmds generalizing seen with
+  | nil => simp [cmdsLoop, allKeys]
+  | cons c cs ih =>
+    obtain ⟨ks, hk, hne⟩ := h c (by simp)
+    rw [cmdsLoop, hk, allKeys_cons, resolvedKeys_of_ok hk]
+    simp only
+    have he : ks.isEmpty = false := by
+      cases ks with
+      | nil => exact absurd rfl hne
+      | cons _ _ => rfl
+    rw [he]
+    simp only [Bool.false_eq_true, ↓reduceIte]
+    rw [keysLoop_standalone]
+    simp only
+    rw [ih _ (fun c' hc' => h c' (List.mem_cons_of_mem _ hc')), List.length_append, Nat.add_assoc]
+
+/-- in standalone mode every non-empty list of routable commands is accepted -/
+theorem buildUnit_standalone (r : Resolver) (cmds : List Cmd) (hne : cmds ≠ []) (h : ∀ c ∈ cmds, Routable r c) :
+    buildUnit standaloneMode r cmds = .ok ⟨0, slotTag 0, cmds⟩ := by
+  unfold buildUnit
+  have he : cmds.isEmpty = false := by
+    cases cmds with
+    | nil => exact absurd rfl hne
+    | cons _ _ => rfl
+  rw [he]
+  simp only [Bool.false_eq_true, ↓reduceIte]
+  have hinit : initSt standaloneMode = (0, true, 0) := rfl
+  rw [hinit, cmdsLoop_standalone r cmds 0 0 h]
+  simp only
+  have hpos : ((0 + (allKeys r cmds).length == 0) || !true) = false := by
+    cases cmds with
+    | nil => exact absurd rfl hne
+    | cons c cs =>
+      obtain ⟨ks, hk, hks⟩ := h c (by simp)
+      rw [allKeys_cons, resolvedKeys_of_ok hk]
+      cases ks with
+      | nil => exact absurd rfl hks
+      | cons _ _ => simp
+  rw [hpos]
+  rfl
+
 end GunYu.BisyncUnit
